@@ -433,6 +433,35 @@ Proof.
 Qed.
 End AfterMerge.
 
+(* ---- the same at tree level: the root  Merge t os post  of ANY tree (K = N * number of leaves) ---- *)
+Lemma nleaves_pos : forall t : mtree Mc, 0 < nleaves t.
+Proof. induction t as [bs|t os post IHt _] using mtree_ind'; cbn [nleaves]; lia. Qed.
+Lemma cap_K_tree t os post :
+  fold_left (fun a m => a + w_max m) (map (run Mc c) os) (w_max (run Mc c t)) = N * nleaves (Merge Mc t os post).
+Proof. exact (cap_capacity_any_tree (Merge Mc t os [])). Qed.
+
+Theorem cap_update_after_merge_tree (t : mtree Mc) (os : list (mtree Mc)) (post : list wbatch) : 0 < N ->
+  let K := N * nleaves (Merge Mc t os post) in
+  let parts := wfilled W (run Mc c t) ++ flat_map (wfilled W) (map (run Mc c) os) in
+  let s0 := wmrg_cap W c (run Mc c t) (map (run Mc c) os) in
+  let s' := run Mc c (Merge Mc t os post) in
+  (w_max s' = K /\ w_cur s0 = Nat.modulo (List.length parts) K /\
+   rotv s' = lastn K (repeat (zcol W c) (K - List.length parts) ++ parts ++ hist post)) /\
+  (exists lw, windowed_of (wcmp W c s') = (if Nat.eqb (w_tot s') 0 then None else Some (wgam W c lw)) /\
+              Forall2 R lw (tsum W c (lastn K (parts ++ hist post)))) /\
+  (K <= List.length post ->
+   exists lw, windowed_of (wcmp W c s') = Some (wgam W c lw) /\ Forall2 R lw (tsum W c (lastn K (hist post)))).
+Proof.
+  intros HN K parts s0 s'.
+  assert (HK : 0 < fold_left (fun a m => a + w_max m) (map (run Mc c) os) (w_max (run Mc c t))).
+  { rewrite (cap_K_tree t os post). pose proof (nleaves_pos (Merge Mc t os post)). nia. }
+  pose proof (cap_queue_after_merge (run Mc c t) (map (run Mc c) os) post HK) as H1.
+  pose proof (cap_value_after_merge (run Mc c t) (map (run Mc c) os) post HK) as H2.
+  pose proof (cap_value_after_merge_full (run Mc c t) (map (run Mc c) os) post HK) as H3.
+  rewrite (cap_K_tree t os post) in H1, H2, H3.
+  split; [exact H1|split; [exact H2|exact H3]].
+Qed.
+
 (* ---- when the statistic's equivalence is plain equality: clean statements ---- *)
 Hypothesis R_eq : forall x y, R x y -> x = y.
 
@@ -468,6 +497,15 @@ Theorem cap_value_after_merge_full_eq s ms post :
   windowed_of (wcmp W c (fold_left (wupd W c) post (wmrg_cap W c s ms))) = Some (win_ref W c (lastn K post)).
 Proof.
   intros K HK Hge. destruct (cap_value_after_merge_full s ms post HK Hge) as (lw & E & Hlw). rewrite E.
+  rewrite (Forall2_eq _ _ _ R_eq Hlw). unfold win_ref. rewrite lastn_map. reflexivity.
+Qed.
+Theorem cap_update_after_merge_tree_full_eq (t : mtree Mc) (os : list (mtree Mc)) (post : list wbatch) : 0 < N ->
+  let K := N * nleaves (Merge Mc t os post) in
+  K <= List.length post ->
+  windowed_of (wcmp W c (run Mc c (Merge Mc t os post))) = Some (win_ref W c (lastn K post)).
+Proof.
+  intros HN K Hge. destruct (cap_update_after_merge_tree t os post HN) as (_ & _ & H3).
+  destruct (H3 Hge) as (lw & E & Hlw). rewrite E.
   rewrite (Forall2_eq _ _ _ R_eq Hlw). unfold win_ref. rewrite lastn_map. reflexivity.
 Qed.
 End CapProofs.
